@@ -43,20 +43,25 @@ pub(crate) mod b {
         let core = (6.5f32, 6.0f32, 30.0f32, 14.0f32); // nested in inner: three levels
         let sibling = (70.0f32, 0.0f32, 95.0f32, 20.0f32);
         let circ = (110.0f32, 10.0f32, 9.0f32);
+        let ring = (38.0f32, 30.0f32, 5.0f32); // a circle nested in inner, beside core
+        let bigcirc = (160.0f32, 30.0f32, 25.0f32); // a circle that contains a box
+        let cbox = (150.0f32, 20.0f32, 170.0f32, 40.0f32);
         // positions of the content (cell coordinates; a cell is 1 x 2 units): in inner, in outer only,
         // in the sibling, in the circle, outside everything
-        let places: [(i32, i32, &str); 6] = [(8, 4, "core"), (10, 10, "inner"), (47, 22, "outer"), (72, 3, "sibling"), (104, 4, "circle"), (130, 40, "none")];
+        let places: [(i32, i32, &str); 9] = [(8, 4, "core"), (10, 10, "inner"), (47, 22, "outer"), (72, 3, "sibling"), (104, 4, "circle"), (130, 40, "none"),
+            (34, 14, "ring"), (152, 12, "cbox"), (140, 14, "bigcirc")];
         let contents = ["{t}", "{a,b1}", "{_x}", "hello", "{bad", "{a b}"];
         // precondition established by the caller (endorse_to_fragment_spans): shapes come before texts, and an
         // enclosing shape before the shapes inside it (spans are built in row-major order of their first cell)
-        let orders: [[usize; 5]; 4] = [[0, 1, 4, 2, 3], [2, 3, 0, 1, 4], [0, 2, 1, 3, 4], [3, 0, 2, 1, 4]];
+        let orders: [[usize; 8]; 4] = [[0, 1, 4, 5, 2, 3, 6, 7], [6, 2, 3, 0, 1, 5, 4, 7], [0, 2, 1, 3, 4, 6, 7, 5], [3, 6, 7, 0, 2, 1, 5, 4]];
         for (px, py, place) in places {
             for content in contents {
                 for order in orders {
                     for text_first in [false] {
                         let shapes = [rect(outer.0, outer.1, outer.2, outer.3), rect(inner.0, inner.1, inner.2, inner.3),
                             rect(sibling.0, sibling.1, sibling.2, sibling.3), circle(circ.0, circ.1, circ.2),
-                            rect(core.0, core.1, core.2, core.3)];
+                            rect(core.0, core.1, core.2, core.3), circle(ring.0, ring.1, ring.2), circle(bigcirc.0, bigcirc.1, bigcirc.2),
+                            rect(cbox.0, cbox.1, cbox.2, cbox.3)];
                         let mut frags: Vec<FragmentSpan> = order.iter().map(|i| shapes[*i].clone()).collect();
                         let label = text(px, py, content);
                         let other = text(48, 25, "x"); // plain text in the outer box, never a tag
@@ -75,14 +80,17 @@ pub(crate) mod b {
                                 Fragment::Rect(r) if r.start.x == outer.0 => "outer",
                                 Fragment::Rect(r) if r.start.x == inner.0 => "inner",
                                 Fragment::Rect(r) if r.start.x == core.0 => "core",
+                                Fragment::Rect(r) if r.start.x == cbox.0 => "cbox",
                                 Fragment::Rect(_) => "sibling",
+                                Fragment::Circle(c) if c.radius == ring.2 => "ring",
+                                Fragment::Circle(c) if c.radius == bigcirc.2 => "bigcirc",
                                 Fragment::Circle(_) => "circle",
                                 _ => "text",
                             }
                         };
                         let mut ok = true;
                         let mut why = String::new();
-                        for shape in ["outer", "inner", "core", "sibling", "circle"] {
+                        for shape in ["outer", "inner", "core", "sibling", "circle", "ring", "bigcirc", "cbox"] {
                             let nodes = find(&trees, &|f| key(f) == shape);
                             if nodes.len() != 1 {
                                 ok = false;
